@@ -312,6 +312,11 @@ impl SimHeap {
 
     pub fn bytes(&self) -> &[u8] {
         use crate::machine::heap::SizedHeap;
+
+        if self.0.byte_len() == 0 {
+            return &[];
+        }
+
         self.0.as_slice()
     }
 
